@@ -58,6 +58,34 @@ pub fn run_case(run: fn(&Case, bool) -> RunOut, case: &Case, trace: bool) -> Run
     }
 }
 
+// ---------------------------------------------------------------------------------------------
+// Non-termination watchdog. A synchronous library call that never returns cannot be caught by the
+// poll cap; each worker therefore publishes a heartbeat (bumped whenever the harness starts a
+// new sub-evaluation: a transport core or a blocking decode) and the run index it is working on.
+// A worker whose heartbeat stands still for VERIF_HANG_S seconds (default 180; single
+// sub-evaluations take milliseconds to a few seconds) is reported as a violation with the case it
+// is stuck in. Wall-clock time is read only here, never inside a run.
+
+const MAXW: usize = 256;
+#[allow(clippy::declare_interior_mutable_const)]
+const Z: AtomicU64 = AtomicU64::new(0);
+static BEATS: [AtomicU64; MAXW] = [Z; MAXW];
+static CUR: [AtomicU64; MAXW] = [Z; MAXW];
+thread_local! {
+    static WORKER: std::cell::Cell<usize> = const { std::cell::Cell::new(usize::MAX) };
+}
+
+/// Called by the harness at the start of every sub-evaluation.
+pub fn beat() {
+    let w = WORKER.with(|w| w.get());
+    if w < MAXW {
+        BEATS[w].fetch_add(1, Ordering::Relaxed);
+    }
+}
+
+/// What to do when a worker hangs: (scenario name, run index). Set by main.
+pub static HANG_HOOK: std::sync::OnceLock<fn(&str, u64)> = std::sync::OnceLock::new();
+
 pub fn gen_case(s: &Scenario, master: u64, tier: Tier, idx: u64) -> (u64, Case) {
     let seed = run_seed(master, s.name, idx);
     let mut rng = Rng::new(seed);
@@ -92,9 +120,45 @@ pub fn run_batch(
     let stop = AtomicBool::new(false);
     let shards: Mutex<Vec<Shard>> = Mutex::new(Vec::new());
     const BLOCK: u64 = 64;
+    let finished = AtomicU64::new(0);
+    let njobs = jobs.clamp(1, MAXW);
+    let hang_s = std::env::var("VERIF_HANG_S").ok().and_then(|v| v.parse::<u64>().ok()).unwrap_or(180);
     std::thread::scope(|sc| {
-        for _ in 0..jobs.max(1) {
-            sc.spawn(|| {
+        // watchdog
+        sc.spawn(|| {
+            let mut last: Vec<(u64, Instant)> = (0..njobs).map(|w| (BEATS[w].load(Ordering::Relaxed), Instant::now())).collect();
+            while finished.load(Ordering::Relaxed) < njobs as u64 {
+                std::thread::sleep(Duration::from_millis(250));
+                for w in 0..njobs {
+                    let b = BEATS[w].load(Ordering::Relaxed);
+                    let cur = CUR[w].load(Ordering::Relaxed);
+                    if b != last[w].0 || cur == 0 {
+                        last[w] = (b, Instant::now());
+                    } else if hang_s > 0 && last[w].1.elapsed() >= Duration::from_secs(hang_s) {
+                        if let Some(h) = HANG_HOOK.get() {
+                            h(s.name, cur - 1);
+                        }
+                        last[w] = (b, Instant::now());
+                    }
+                }
+            }
+        });
+        for wid in 0..njobs {
+            let finished = &finished;
+            let next = &next;
+            let stop = &stop;
+            let shards = &shards;
+            sc.spawn(move || {
+                WORKER.with(|w| w.set(wid));
+                CUR[wid].store(0, Ordering::Relaxed);
+                struct Done<'a>(&'a AtomicU64, usize);
+                impl Drop for Done<'_> {
+                    fn drop(&mut self) {
+                        CUR[self.1].store(0, Ordering::Relaxed);
+                        self.0.fetch_add(1, Ordering::Relaxed);
+                    }
+                }
+                let _done = Done(finished, wid);
                 crate::fe::install_panic_hook();
                 let mut sh = Shard {
                     runs: 0,
@@ -126,6 +190,8 @@ pub fn run_batch(
                     let end = if budget.is_none() { (b + BLOCK).min(runs) } else { b + BLOCK };
                     for idx in b..end {
                         let t0 = Instant::now();
+                        CUR[wid].store(idx + 1, Ordering::Relaxed);
+                        beat();
                         let (seed, case) = gen_case(s, master, tier, idx);
                         let mut out: RunOut = run_case(s.run, &case, false);
                         let ms = t0.elapsed().as_millis();
